@@ -215,6 +215,7 @@ struct Expect {
     time_point start;
     StartDate sd;
     bool fmt = false;
+    std::vector<int> ppos;           // canonical index -> PARAMS position in the run's SMSPEC (messages only)
 };
 
 static Expect make_expect(const Setup& S, const Series* base, int r, const Series& own) {
@@ -237,15 +238,17 @@ static bool feq(float got, float want, bool fmt, size_t idx) {
 }
 
 // over-read signature of the unterminated strtof buffer: the token is right, the exponent got extra digits
-// (extra exponent digits multiply the value by an exact power of ten != 1, or overflow/underflow it; a wrong offset returns
-// another fingerprint, and no two fingerprints are related by a power of ten)
+// Extra digits can only be APPENDED to the two exponent digits: a value >= 0.1 (exponent E+XX) grows by an exact power of
+// ten (or overflows), a value < 0.1 (exponent E-XX) shrinks by one (or underflows).  A wrong offset returns another fingerprint
+// (no two fingerprints are related by a power of ten) or a truncated token (which moves the value the other way).
 static bool overread_signature(float got, float want) {
-    if (!(want > 0)) return false;
-    if (std::isinf(got)) return true;
-    if (got == 0) return want < 0.1f;
-    if (got < 0 || std::isnan(got)) return false;
+    if (!(want > 0) || std::isnan(got) || got < 0) return false;
+    const bool up = want >= 0.1f;
+    if (std::isinf(got)) return up;
+    if (got == 0) return !up;
     const double k = std::log10(double(got) / double(want)), kr = std::round(k);
-    return kr != 0 && std::fabs(k - kr) < 1e-5;
+    if (std::fabs(k - kr) >= 1e-5) return false;
+    return up ? kr >= 1 : kr <= -1;
 }
 
 struct Ctx { std::string reader, cfg, casestr; bool fmt = false; };
@@ -267,7 +270,7 @@ static void check_values(Rd& rd, const Expect& e, const Ctx& c, const std::vecto
         for (size_t m = 0; m < n; ++m) {
             ++g_values;
             if (!feq(v[m], e.rows[m][idx], e.fmt, idx)) {
-                const std::string msg = "vector " + e.V->rkey[idx] + " (canonical position " + std::to_string(idx) + " of " + std::to_string(P) + ") ministep " + std::to_string(m) + ": read " + vf::fmt17(v[m]) + ", written " + vf::fmt17(e.rows[m][idx]);
+                const std::string msg = "vector " + e.V->rkey[idx] + " (PARAMS position " + std::to_string(idx < e.ppos.size() ? e.ppos[idx] : int(idx)) + " of " + std::to_string(P) + ") ministep " + std::to_string(m) + ": read " + vf::fmt17(v[m]) + ", written " + vf::fmt17(e.rows[m][idx]);
                 if (c.reader == "esmry-select" && c.fmt && overread_signature(v[m], e.rows[m][idx]))
                     R->violation("C10:esmry-select:fmt:unterminated-strtof:wrong-value", "formatted ESmry::loadData(vectList): " + msg + " (right token, exponent ran on into the bytes behind the 17-byte buffer)  [" + c.casestr + "]", "{\"case\": " + vf::jstr(c.casestr) + "}");
                 else viol(c, "value", msg);
@@ -360,6 +363,25 @@ static std::vector<int> select_positions(int P) {
     return v;
 }
 
+// PARAMS position -> canonical index, from the KEYWORDS/WGNAMES/NUMS arrays of the SMSPEC the writer produced
+// (only used to choose which vectors sit at the interesting positions, and for messages; empty = SMSPEC does not list exactly the vectors written)
+static std::vector<int> params_order(const std::string& spec, const Vectors& V) {
+    EclIO::EclFile f(spec);
+    f.loadData();
+    const auto kw = f.get<std::string>("KEYWORDS"); const auto wg = f.get<std::string>("WGNAMES"); const auto nums = f.get<int>("NUMS");
+    std::map<int, int> bpr; for (size_t idx = 0; idx < V.rkey.size(); ++idx) if (V.gidx[idx] > 0) bpr[V.gidx[idx]] = int(idx);
+    std::vector<int> out; std::set<int> used;
+    if (kw.size() != V.rkey.size() || wg.size() != kw.size() || nums.size() != kw.size()) return {};
+    for (size_t p = 0; p < kw.size(); ++p) {
+        int idx = -1;
+        if (kw[p] == "TIME") idx = 0; else if (kw[p] == "YEARS") idx = 1; else if (kw[p] == "FOPR") idx = 2; else if (kw[p] == "WOPR" && wg[p] == "P1") idx = 3;
+        else if (kw[p] == "BPR") { auto it = bpr.find(nums[p]); if (it != bpr.end()) idx = it->second; }
+        if (idx < 0 || !used.insert(idx).second) return {};
+        out.push_back(idx);
+    }
+    return out;
+}
+
 static std::string slurp(const std::string& fn) { std::ifstream f(fn, std::ios::binary); std::stringstream ss; ss << f.rdbuf(); return ss.str(); }
 
 static void clean(const std::string& prefix) {
@@ -440,11 +462,19 @@ static void run_case(CaseGroup& G, const std::string& script) {
     try { Tm t("writer"); own = run_writer(S, RUN_NAME, script, S.base + 1, t0, 1, !S.fmt); }
     catch (const std::exception& ex) { R->violation("C10:writer:" + cfg + ":throws", std::string("writer threw: ") + std::string(ex.what()).substr(0, 200) + "  [" + casestr + "]", "{\"case\": " + vf::jstr(casestr) + "}"); return; }
     if (own.ms.empty()) { R->count("scripts_without_ministep"); return; }          // nothing is written, nothing to read
-    const Expect e = make_expect(S, withbase ? &G.baseSeries : nullptr, S.base, own);
+    Expect e = make_expect(S, withbase ? &G.baseSeries : nullptr, S.base, own);
     if (e.rs_legacy != e.rs_flag) R->count("cases_with_open_last_report_step");
     const std::string spec = g_dir + "/" + RUN_NAME + (S.fmt ? ".FSMSPEC" : ".SMSPEC");
     const int P = int(S.vec.rkey.size());
-    const std::vector<int> pos = select_positions(P);
+    std::vector<int> pos;            // canonical indices of the vectors at the interesting PARAMS positions
+    {
+        std::vector<int> order;
+        try { order = params_order(spec, S.vec); } catch (const std::exception&) {}
+        if (order.empty()) { R->violation("C10:writer:" + cfg + ":count", "the SMSPEC written does not list exactly the vectors of the run (KEYWORDS/WGNAMES/NUMS)  [" + casestr + "]", "{\"case\": " + vf::jstr(casestr) + "}"); return; }
+        e.ppos.assign(P, 0);
+        for (int p = 0; p < P; ++p) e.ppos[order[p]] = p;
+        for (int p : select_positions(P)) pos.push_back(order[p]);
+    }
 
     // observation = state: every file the writer produced (names + bytes).  The readers are functions of these files;
     // a script whose files AND model are identical to an earlier script of the same group is the same state and is
@@ -587,7 +617,7 @@ static void run_case(CaseGroup& G, const std::string& script) {
         else {
             // own steps (single run view)
             {
-                const Expect eo = make_expect(S, nullptr, 0, own);
+                Expect eo = make_expect(S, nullptr, 0, own); eo.ppos = e.ppos;
                 EclIO::ExtESmry ex(esmry, false);
                 ex.loadData();
                 check_axis(ex, eo, c, eo.rs_legacy, false);
@@ -646,6 +676,7 @@ int main(int argc, char** argv) {
     const char* sc = std::getenv("VERIF_SCRATCH");
     g_dir = std::string(sc ? sc : "/tmp") + "/C10." + std::to_string(getpid());
     fs::create_directories(g_dir);
+    if (!run.out.empty()) run.out = fs::absolute(run.out).string();      // the harness changes its working directory
     fs::current_path(g_dir);          // RESTART 'C10B' is resolved relative to the working directory (EclipseState checks that C10B.X000r exists)
     g_python = std::make_shared<Python>();
 #ifdef C10_SELECT_PART
@@ -669,7 +700,7 @@ int main(int argc, char** argv) {
         auto G = make_group(N, f, u, b);
         run_case(*G, sbuf);
         G.reset();
-        fs::current_path(fs::path(g_dir).parent_path()); fs::remove_all(g_dir);
+        fs::current_path(fs::path(g_dir).parent_path()); if (!std::getenv("C10_KEEP")) fs::remove_all(g_dir);
         return run.finish();
     }
 
